@@ -29,6 +29,7 @@ func genFault(c *Case, r *simrt.Rand, tier string) {
 	cfg.idle = 0
 	cfg.merges = 0.4
 	cfg.concerns = []int{0, 1, 1, 1, 2}
+	cfg.partial = 0.35
 	genSingle(c, r, cfg)
 	c.Opts.KeepFiles = false
 	c.Prog = append(c.Prog, Op{Kind: "stopFaults"}, Op{Kind: "catchup"}, Op{Kind: "verify"})
